@@ -373,10 +373,8 @@ func (dn *dirNode) size() int64 {
 // delete removes all information from the node, decrements the reference counter of the fileNode.
 // If there is no more references, the data is deleted.
 func (fn *fileNode) delete() {
+	// the content is kept : an open file keeps working after its last name is removed.
 	fn.nlink--
-	if fn.nlink == 0 {
-		fn.data = nil
-	}
 }
 
 // fillStatFrom returns a MemInfo (implementation of fs.FileInfo) from a fileNode fn named name.
